@@ -47,8 +47,8 @@ theorem scgi_closes (lim : Limits) (segs : Segs) : ClosesAfterError (scgiConn li
   repeat' split
   all_goals exact closes_single _
 
-theorem httpConn_ne (lim : Limits) (cfg : HttpCfg) (fuel : Nat) (hints : List Bool) (st : HttpSt) :
-    httpConn lim cfg fuel hints st ≠ [] := by
+theorem httpConn_ne (lim : Limits) (cfg : HttpCfg) (fuel : Nat) (hints : List Bool) (t0 : Nat) (st : HttpSt) :
+    httpConn lim cfg fuel hints t0 st ≠ [] := by
   cases fuel with
   | zero => simp [httpConn]
   | succ f =>
@@ -58,13 +58,13 @@ theorem httpConn_ne (lim : Limits) (cfg : HttpCfg) (fuel : Nat) (hints : List Bo
     · simp only
       split <;> simp
 
-theorem http_closes (lim : Limits) (cfg : HttpCfg) : ∀ (fuel : Nat) (hints : List Bool) (st : HttpSt),
-    ClosesAfterError (httpConn lim cfg fuel hints st) := by
+theorem http_closes (lim : Limits) (cfg : HttpCfg) : ∀ (fuel : Nat) (hints : List Bool) (t0 : Nat) (st : HttpSt),
+    ClosesAfterError (httpConn lim cfg fuel hints t0 st) := by
   intro fuel
   induction fuel with
-  | zero => intro hints st; simp [httpConn]; exact closes_single _
+  | zero => intro hints t0 st; simp [httpConn]; exact closes_single _
   | succ f ih =>
-    intro hints st
+    intro hints t0 st
     unfold httpConn
     split
     · exact closes_single _
@@ -72,7 +72,7 @@ theorem http_closes (lim : Limits) (cfg : HttpCfg) : ∀ (fuel : Nat) (hints : L
       split
       · rename_i hk
         simp only [Bool.and_eq_true] at hk
-        refine closes_cons ?_ (ih _ _) (httpConn_ne _ _ _ _ _)
+        refine closes_cons ?_ (ih _ _ _) (httpConn_ne _ _ _ _ _ _)
         cases ho : (runRequest lim httpReadSome _ _).1 <;> simp_all [isApp, goesOn]
       · exact closes_single _
 
